@@ -26,6 +26,7 @@ THEOREMS = [
     "JanetModel.Props.C18.spawn_inherits",
     "JanetModel.Props.C18.thread_keeps_parent_flags",
     "JanetModel.Props.C18.sandboxOp_guarded",
+    "JanetModel.Props.C18.interp_sound",
     "JanetModel.Props.C18.checker_sound",
     "JanetModel.Props.C18.checker_sound_entry",
     "JanetModel.Props.C18.gen_certOK",
@@ -59,7 +60,7 @@ def dyn_need(sens, binding, name, detail):
         g = []
         if acc in (0, 2):
             g.append(F["fs-read"])
-        if acc in (1, 2) or d.get("creat") == "1" or d.get("trunc") == "1" or d.get("append") == "1":
+        if acc in (1, 2) or d.get("creat") == "1" or d.get("trunc") == "1":     # same rule as Cap.needOpen
             g.append(F["fs-write"])
         return g
     if name in ("fopen", "fopen64"):
@@ -127,9 +128,26 @@ def run_config(hx, caps, mode, level, only, timeout, tag, shard=0, nshards=1):
     return dict(caps=caps, mode=mode, records=recs, crashes=crashes, hangs=hangs, done=done, dir=d)
 
 
-def analyse(M, res, predicted):
+def predicted_modes(M, C):
+    """binding -> set of open(2) modes (projected on Cap.modeRelevant) the certificate allows at open-like calls of its C function"""
+    per_fn = {}
+    if C is None:
+        return {}
+    for n, (fn, op, succ) in enumerate(M.nodes):
+        if op[0] == "libc" and op[2] in gen.OPEN_FLAGS_ARG:
+            per_fn.setdefault(M.slice[fn], set()).update(m for m, k in C.K[n])
+    out = {}
+    for jn, cfs in M.regs.items():
+        for c in cfs:
+            if c in per_fn:
+                out.setdefault(jn, set()).update(per_fn[c])
+    return out
+
+
+def analyse(M, res, predicted, pmodes=None):
     """-> (violations, unpredicted, ncalls, nsens)"""
     viol, unpred = [], []
+    pmodes = pmodes or {}
     marks = {}
     ncalls = nsens = 0
     for mk, vm, flags, name, detail in res["records"]:
@@ -142,6 +160,11 @@ def analyse(M, res, predicted):
             continue
         parts = marks[mk].split(" ")
         binding, shape, kind = parts[0], parts[1], parts[2]
+        if name in ("open", "open64") and kind == "c" and vm == "vm" and binding in pmodes:
+            d = dict(x.split("=", 1) for x in detail.split() if "=" in x)
+            md = int(d.get("acc", 0)) | (64 if d.get("creat") == "1" else 0) | (512 if d.get("trunc") == "1" else 0)
+            if md not in pmodes[binding]:
+                unpred.append(dict(binding=binding, call=name + " mode %d" % md, detail=detail.replace(res["dir"], "<dir>")))
         groups = dyn_need(M.sens, binding, name, detail)
         if not groups:
             continue
@@ -321,6 +344,7 @@ def run(ctx):
         M.sens = gen.cap_tables()[0]
         M.regs, M.nodes, M.fn_ids = {}, [], {}
     predicted = predicted_calls(M) if M.nodes else {}
+    pmodes = predicted_modes(M, C) if M.nodes else {}
     reported = set()
     witnesses = []
 
@@ -375,7 +399,7 @@ def run(ctx):
         with cf.ThreadPoolExecutor(24) as ex:
             results = list(ex.map(go, [(c, sh) for c in configs for sh in range(NSH)]))
         for res in results:
-            vs, up, nc, ns = analyse(M, res, predicted)
+            vs, up, nc, ns = analyse(M, res, predicted, pmodes)
             total_calls += nc
             total_sens += ns
             for v in vs:
@@ -404,7 +428,7 @@ def run(ctx):
     # broken obligations without a confirmed failing input
     for u in unconfirmed:
         ctx.violation("uncovered:%s:%s" % (u["fn"], u["call"]), {"kind": "uncovered-path", "theorem": "JanetModel.Props.C18.gen_certOK", "row": {k: u[k] for k in ("fn", "call", "need", "entries", "bindings", "src")}},
-                      found=False, what="%s reaches %s without asserting %s (entries %s); the sweep could not trigger it" % (u["fn"], u["call"], capnames(u["need"]), u["entries"][:4]))
+                      found=False, what="%s reaches %s (open mode %s) without asserting %s (entries %s); the sweep could not trigger it" % (u["fn"], u["call"], u.get("mode"), capnames(u["need"]), u["entries"][:4]))
     if broken and not witnesses and not unconfirmed and not fdiffs:
         ctx.violation("broken:" + broken[0][:80], {"kind": "broken-obligation", "broken": broken}, found=False,
                       what="no longer shown to hold: " + "; ".join(broken)[:600])
@@ -418,7 +442,7 @@ def run(ctx):
         "configurations": ["%s/%s" % c for c in configs],
         "static": {"slice_functions": len(getattr(M, "slice", [])), "nodes": len(M.nodes), "entry_functions": len(getattr(M, "entry_fns", [])),
                    "mirror_failures": [dict((k, b[k]) for k in b if k in ("kind", "fn", "call", "need")) for b in static_bad][:10],
-                   "flag_writes": getattr(M, "flag_writes", None), "may_grow_functions": len(getattr(M, "may_grow", []))},
+                   "flag_writes": getattr(M, "flag_writes", None), "open_flags_tracked": getattr(M, "mode_tracked", None), "open_flags_untracked": getattr(M, "mode_untracked", None), "may_grow_functions": len(getattr(M, "may_grow", []))},
         "sensitive_calls_observed": total_sens, "unpredicted": unpredicted[:10], "crashes": crashes[:20], "hangs": hangs[:20],
         "flag_scenarios": nscen, "flag_scenario_diffs": len(fdiffs), "escapes": witnesses[:10],
     }
@@ -426,7 +450,9 @@ def run(ctx):
         "LLVM IR at -O0 is a faithful account of the C call structure; indirect calls and calls of functions that may reach janet_sandbox are modelled as `havoc` (flag word may grow) and their targets are entry points themselves",
         "the set `mayGrow` of functions outside the slice that may change the flag word is computed by the translator (not certificate-checked)",
         "Cap.lean: which OS call needs which capability; exemptions ts_now/clock_gettime, janet_cryptorand/open(/dev/urandom), os_execute_impl/environ; operations on handles that already exist (accept, read, write, waitpid, kill) are not acquisitions",
-        "mode-dependent calls (open/fopen/dlopen/getaddrinfo/bind): statically some capability of the group is asserted on every path; the right one for the arguments is checked dynamically only",
+        "open(2): the flags variable is tracked statically (access mode, O_CREAT, O_TRUNC; Linux constants in Cap.lean) and the matching capability is required per path; the sweep checks that observed modes are among the certified ones",
+        "other argument-dependent calls (fopen mode string, dlopen, getaddrinfo, bind): statically some capability of the group is asserted on every path; the right one for the arguments is checked dynamically only; fopen \"w+\" counts as write-kind",
+        "havoc nodes = interpreter runs (Ex in Model.lean): indirect calls reach only entry points of the graph, functions outside the slice, or janet_sandbox; every address-taken function of the slice is an entry point (by construction of the translator)",
     ])
 
 
